@@ -31,6 +31,11 @@ def scenarios(tier):
   out.append(('mux 2 endpoints, 3 calls issued while opening',
               {'stack': 'mux', 'endpoints': 2, 'ops': [('call', 'n0', 0.1025), ('call', 'n1'), ('call', 'n2')], 'open_timeout': 0,
                'faults': FAULTS, 'timeout': 0.5025}))
+  # two connections alive in one process (state a class shares between connections shows here): tags released on one
+  # connection, then concurrent calls on the other
+  out.append(('mux 2 endpoints, 4 calls, one completes before the others overlap',
+              {'stack': 'mux', 'endpoints': 2, 'ops': [('call', 'u0'), ('call', 'u1'), ('call', 'u2'), ('call', 'u3')],
+               'faults': ['drop'], 'timeout': 0.5025}))
   if tier == 'thorough':
     out.append(('thrift pooled connection, split replies',
                 {'stack': 'thrift', 'endpoints': 1, 'ops': [('call', 's0', 0.1025), ('call', 's1')],
